@@ -90,14 +90,19 @@ func init() {
 			{Func: "H_SEM_order", Covers: []string{"end"}},
 		},
 	})
-	register(&Prop{
+	c04exit := &Prop{
+		ID: "C04", Label: "exit-status", HarnessDirs: []string{"c04main"}, Pkg: "github.com/cloudwego/thriftgo",
+		Harnesses: []Harness{{Func: "H_C04_exit", Covers: []string{"ok", "error", "panic"}, Confirm: confirmExit}},
+	}
+	c04pipe := &Prop{
 		ID:          "C04",
+		Label:       "pipeline",
 		HarnessDirs: []string{"astsig", "sem"},
 		Pkg:         "github.com/cloudwego/thriftgo/semantic",
 		Diff:        []string{"D_SEM_rich", "D_SEM_errors"},
 		Functions:   semFuncs,
 		Bounds:      "in-process diagnosis pipeline CircleDetect -> CheckAll -> ResolveSymbols (as in sdk/invoke.go) on the three-file model: free reference strings as in C05 (error direction), duplicate globals of every kind pair with free 2-byte names in every file of the include graph, duplicate fields (free i32 ids, free names) in struct/union/exception/args/throws, enum with free names and free i64 numbers, function flags, union defaults (3 members), typedef targets (3 typedefs x 6 targets, with and without an enum-value constant), include matrices of 1..3 files",
-		Assumptions: []string{"process level behaviour (exit status of the binary, no file written, message text) is outside: os/exec and the file system are not encodable", "syntax errors are the error branch of C03", "constant/default type checking in the Go backend (resolver.go) is outside this check"},
+		Assumptions: []string{"'no file written', message text and hangs of the real process are outside: the file system and os/exec are not encodable (the exit status is covered by the exit-status variant up to the stubbed compiler call)", "syntax errors are the error branch of C03", "constant/default type checking in the Go backend (resolver.go) is outside this check"},
 		Harnesses: []Harness{
 			{Func: "H_SEM_typeref", Quick: tuples3([]int64{1}, seq(0, 6), seq(1, 4)), Thorough: tuples3([]int64{1}, seq(0, 6), seq(1, 5)), Covers: []string{"bound", "unbound"}},
 			{Func: "H_SEM_valref", Quick: tuples3([]int64{1}, seq(0, 3), seq(1, 5)), Thorough: tuples3([]int64{1}, seq(0, 3), seq(1, 6)), Covers: []string{"bound", "unbound"}},
@@ -110,6 +115,11 @@ func init() {
 			{Func: "H_C04_typedef_cycle", Quick: rng(0, 1), Covers: []string{"cycle", "acyclic"}, StepLimitIsViolation: true, MaxSteps: 3000000},
 			{Func: "H_C04_include_cycle", Quick: rng(1, 3), Covers: []string{"cycle", "dag"}, StepLimitIsViolation: true, MaxSteps: 3000000},
 		},
+	}
+	register(&Prop{ID: "C04", Variants: []*Prop{c04pipe, c04exit},
+		Functions: append(append([]string{}, semFuncs...), "main.main", "main.handlePanic"),
+		Bounds:    c04pipe.Bounds + " || exit status: main.main with sdk.InvokeThriftgo replaced by an environment stub that ends in each of 6 ways (success, error, wrapped error, panic with an error, panic with a string, runtime error), os.Exit caught by the engine",
+		Assumptions: append(append([]string{}, c04pipe.Assumptions...), "exit-status variant: InvokeThriftgo is a stub with forked outcomes (the pipeline itself is the other variant); a violation is confirmed by building the real main package with sdk/invoke.go overlaid by the same stub and observing the exit status of the process"),
 	})
 	register(&Prop{
 		ID:          "C12",
